@@ -36,7 +36,8 @@ def civil(dt):
 
 def gen_case(rng, tier):
     from vh import matchers
-    kind = rng.choice(['std', 'std', 'multi', 'derived', 'ampm', 'nosec', 'loose', 'subbrk'])
+    kind = rng.choice(['std', 'std', 'multi', 'derived', 'ampm', 'nosec', 'loose', 'subbrk',
+                       'frac'])
     r = rng.random()
     if r < 0.5:
         cur = datetime.strptime(rng.choice(SPECIAL + (SPECIAL_STD if kind != 'derived' else [])),
